@@ -1683,9 +1683,9 @@ def _ordered_merge(left: DataFrame,
                 dest_k += left_suffix
             dest_f = left[k].create_like(dest, dest_k)
             if left[k].indexed:
-                ops.ordered_map_valid_indexed_stream(left[k], left_map, dest_f)
+                ops.ordered_map_valid_indexed_stream(left[k], left_map, dest_f, invalid)
             else:
-                ops.ordered_map_valid_stream(left[k], left_map, dest_f)
+                ops.ordered_map_valid_stream(left[k], left_map, dest_f, invalid)
 
     for k in right_fields_to_map:
         dest_k = k
